@@ -4,6 +4,19 @@ import glob, json, os, re
 R = os.path.dirname(os.path.dirname(os.path.abspath(__file__)))
 NOTES = {
  "C01-B": "first run: bare mismatch; after adding the sequential suites to C01 a failing call sequence is reported",
+ "C05-D": "round 3: missed; caught after split scenarios with the huge block in tree 1",
+ "C10-C": "round 3: correspondence only; caught after history epilogues + 15th exhaustive symbol",
+ "C11-D": "round 3: correspondence only; caught after the whole-tree boundary round of the exhaust suite",
+ "C13-D": "round 3: correspondence only; caught after the custom-policy steal-vs-demote scenarios",
+ "C01-C": "round 3b: correspondence only; caught after multi-row search vs whole-row allocation scenarios",
+ "C21-D": "round 3b: missed; caught after change_tree (matcher free 0) vs get/put scenarios and the scheduler's step limit",
+ "C06-D": "round 3c: missed (a harness assertion failure was DROPPED by the shrinker: checker bug, fixed); caught by the LAYOUT oracle / packed arena",
+ "C20-D": "round 3c: missed; caught after traces with tied time stamps",
+ "C18-B": "caught through the atomic-read discipline proxy (ACC lines) added late; data races as such are outside C18's claim",
+ "C01-E": "round 4: correspondence only; caught after failing-targeted-get vs untargeted-get scenarios",
+ "C10-E": "round 4 (same patch as C15-D): correspondence only for C10; caught after set_start vs put scenarios and freed-frame probes",
+ "C03-G": "round 4: missed; caught after set_start vs new-reservation scenarios (and the per-scenario print limit)",
+ "C13-E": "round 4: missed; caught after custom-policy reserve-vs-demote / reclass scenarios",
  "C04-A": "first run: missed; caught after adding the sync-vs-drain / shared-slot / demote scenarios to the upper-API schedules",
  "C06-B": "first run: missed (zeroed buffers hid it); caught after the init suite starts from dirty buffers and construction panics count for C06",
  "C10-B": "same change as C04-A; caught by C10 after the concurrent drain-and-probe suite was added to it",
@@ -47,8 +60,13 @@ configuration); "(mismatch only)" marks a `no-failing-input-found` report.
 """ + "\n".join(rows) + """
 
 %d of %d seeded changes are reported by the check of the property they were written against, each with a concrete
-failing input. The remaining one (C18-B) is a data race, which lies in the half of C18 this technique cannot express
-(see C18 in 11.3). Nine of them needed the machinery to be strengthened first (notes above, and 11.6).
+failing input (C18-B, a query reading shared counters with plain loads, only through a proxy: the atomic-read
+discipline of the query functions, see 11.6 - data races as such are in the half of C18 this technique cannot
+express). About a quarter of them (25) were first missed or reported only as a broken correspondence and needed the
+machinery to be strengthened - new scheduler scenarios, history epilogues, tied time stamps, the packed metadata
+arena, the step limit, the post-phase frees and probes, and two genuine bugs of the checker itself (harness failures
+dropped by the shrinker; the per-tag print limit of the drivers) - see the notes above and 11.6. In round 4 the
+independent agents re-invented four changes of earlier rounds.
 """ % (sum(1 for r in rows if "**none**" not in r), len(rows))
 p = os.path.join(R, "DESIGN.md")
 s = open(p).read()
